@@ -6,7 +6,7 @@ From Centro Require Import Base.Sx Base.EmdBase Spec.Emd Model.Emd Model.EmdCert
   Proofs.EmdFuel Proofs.EmdHeap Proofs.EmdTransform Proofs.EmdHeapPos Proofs.EmdHeapOrd Proofs.EmdPotential
   Proofs.EmdMcfCert Proofs.EmdHeapMem Proofs.EmdDijkstra Proofs.EmdDijkstraInit
   Proofs.EmdTight Proofs.EmdGhost Proofs.EmdCspPost Proofs.EmdPairAddr Proofs.EmdGraphShape Proofs.EmdAugment Proofs.EmdRun Proofs.EmdConserve Proofs.EmdConserveRun Proofs.EmdIndex Proofs.EmdOptimal Proofs.EmdWrap.
-From Centro Require Import Model.EmdAsIs Model.EmdW Proofs.EmdWrap2.
+From Centro Require Import Model.EmdAsIs Model.EmdW Proofs.EmdWrap2 Model.EmdP Proofs.EmdNoWrap.
 From Centro Require Import Model.EmdMcf.
 Import ListNotations.
 Open Scope Z_scope.
@@ -648,3 +648,25 @@ Theorem C10_no_wrap_below_bound_partial :
      fold_left (fun s x => wrap32 (s + x)) l s = s + zsum l).
 Proof. exact (conj wrap32_id wsum_exact). Qed.
 Print Assumptions C10_no_wrap_below_bound_partial.
+
+(* ------------------------------------------------------------------------------------------------
+   Round 14.  C10_no_wrap_below_bound (no _partial).  Model/EmdP.v is the whole FastEMD pipeline as a
+   PROGRAM over int operations (free monad: Op z k = "an int operation with exact result z, continue
+   with k (w z)"); run w p executes it with number semantics w; okp p is the ghost check recorded by
+   the exact run: every operation on the exact path has a representable result.  The hypothesis
+   no_wrap_b is a decidable boolean and is evaluated for every case and variant in the correspondence;
+   there the as-written program must return the implementation's distance AND flow.
+   wrapped_run_simulation is generic (any program); C10_no_wrap_below_bound instantiates it: when
+   no_wrap_b holds, the code as written for NUM_T = int (wrap32 after every operation) computes
+   exactly what the exact (Z-valued) computation computes — the sharp hypothesis under which the
+   statements about the exact models speak about the int32 code.  (It is sufficient, not necessary:
+   Proofs.EmdNoWrap.prog_agrees_with_section.) *)
+Theorem C10_wrapped_run_simulation : forall (A : Type) (p : prog A), okp p = true -> run wrap32 p = run idz p.
+Proof. exact @wrapped_run_simulation. Qed.
+Print Assumptions C10_wrapped_run_simulation.
+
+Theorem C10_no_wrap_below_bound : forall p q c pen ft gd,
+  no_wrap_b p q c pen ft gd = true ->
+  emd_int32_as_written p q c pen ft gd = emd_int32_exact p q c pen ft gd.
+Proof. exact no_wrap_below_bound. Qed.
+Print Assumptions C10_no_wrap_below_bound.
